@@ -410,7 +410,7 @@ def check_unit(pre, opcode, block_n=None, max_paths=6000, wall_s=600, sym_addr=F
         status=status, error=err, kinds=kinds, texts=sorted(texts)[:6], ntexts=len(texts),
         obligations=len(obs),
         proved=sum(o.status == "proved" for o in obs),
-        failed=[o.as_dict() | {"path_len": len(o.path or [])} for o in obs if o.status == "failed"][:20],
+        failed=core.failed_sample(obs, 20, extra=lambda o: {"path_len": len(o.path or [])}),
         nfailed=sum(o.status == "failed" for o in obs),
         unknown=sum(o.status == "unknown" for o in obs),
         undecided_notes=run.undecided[:5],
@@ -646,7 +646,7 @@ def check_unit_hist(pre, opcode, hist_idx, block_n=None, max_paths=8000, wall_s=
         unit=dict(pre=pre, opcode=opcode, block_n=block_n, hist=hist_idx),
         status=status, error=err, kinds=kinds, obligations=len(obs),
         proved=sum(o.status == "proved" for o in obs),
-        failed=[o.as_dict() for o in obs if o.status == "failed"][:10],
+        failed=core.failed_sample(obs, 10),
         nfailed=sum(o.status == "failed" for o in obs),
         unknown=sum(o.status == "unknown" for o in obs),
         undecided_notes=run.undecided[:5], stats=run.stats.as_dict(), wall_s=round(time.time() - t0, 2),
@@ -759,7 +759,7 @@ def unit_hist_concrete(unit):
                                        detail=None if same else f"bytes {code} after history {hcode} ({variant}): fresh interpreter {w['outcome']} PC={w['regs']['PC']:#x} BA={w['regs']['BA']:#x}; "
                                                                 f"with history {got['outcome']} PC={got['regs']['PC']:#x} BA={got['regs']['BA']:#x}"))
     return dict(unit=unit, status="ok", error=None, kinds={"samples": n}, obligations=len(obs),
-                proved=sum(o.status == "proved" for o in obs), failed=[o.as_dict() for o in obs if o.status == "failed"][:6],
+                proved=sum(o.status == "proved" for o in obs), failed=core.failed_sample(obs, 6),
                 nfailed=sum(o.status == "failed" for o in obs), unknown=0, undecided_notes=[], stats=dict(paths=0, queries=0, solver_s=0.0),
                 by_backend={"enumeration": sum(o.status == "proved" for o in obs)}, wall_s=round(time.time() - t0, 2), bounded=True)
 
@@ -882,6 +882,6 @@ def unit_stepper(unit):
         if o.status == "proved":
             by[o.backend] = by.get(o.backend, 0) + 1
     return dict(unit=unit, status=status, error=err, kinds={}, obligations=len(obs), proved=sum(o.status == "proved" for o in obs),
-                failed=[o.as_dict() for o in obs if o.status == "failed"][:12], nfailed=sum(o.status == "failed" for o in obs),
+                failed=core.failed_sample(obs, 12), nfailed=sum(o.status == "failed" for o in obs),
                 unknown=sum(o.status == "unknown" for o in obs), undecided_notes=run.undecided[:5], stats=run.stats.as_dict(), by_backend=by,
                 wall_s=round(time.time() - t0, 2))
